@@ -146,6 +146,11 @@ func (sf *SparseFile) WriteState() error {
 // to the file and then returned.
 func (h *SparseFileHandle) ReadAt(b []byte, offset int64) (int, error) {
 	if err := h.sf.loader.loadRange(offset, int64(len(b))); err != nil {
+		// An end-of-file from the store (a remote that went away) isn't the
+		// end of this file, don't let it pass for a read at the end
+		if err == io.EOF {
+			err = io.ErrUnexpectedEOF
+		}
 		return 0, err
 	}
 	return h.file.ReadAt(b, offset)
